@@ -65,3 +65,18 @@ VF_HARNESS(array_ref_explicit_pointer_conversion) {   // array_ref<T, 2, T*>&& -
   vf_reach("array_ref_explicit_pointer_conversion");
 }
 #endif
+
+VF_HARNESS(static_array_cast_to_fancy_pointer) {   // static_array_cast<T, xptr<T>>() of an arbitrary raw-pointer view: same base and layout, same element at a symbolic position
+  Spec<D> s = arbitrary_spec<D>(1, FB);
+  auto v = view_of<D>(s, g_mem);
+  auto&& x = v.template static_array_cast<ELEM, xptr<ELEM>>();
+  vf_assert(x.base().p_ == v.base(), "the cast view has the same base");
+  vf_assert(x.layout() == v.layout(), "the cast view has the same layout (sizes, strides, index bases)");
+  L p = vf_range(0, NB); vf_assume(p < s.d[0].size);
+#if DIM == 1
+  vf_assert(&x[s.d[0].first + p] == &v[s.d[0].first + p], "and designates the same elements");
+#else
+  { auto&& a = x[s.d[0].first + p]; auto&& b = v[s.d[0].first + p]; vf_assert(a.base().p_ == b.base() && a.layout() == b.layout(), "and designates the same sub-views"); }
+#endif
+  vf_reach("static_array_cast_to_fancy_pointer");
+}
